@@ -30,6 +30,7 @@ func init() {
 			{Name: "hash-rewind-wrong-char", File: f, Old: "\t\t\t\ts.ch = '#'\n", New: "\t\t\t\ts.ch = '/'\n", Expect: "rewind-consistency/Scanner.Scan:'/'"},
 			{Name: "number-dispatch-wider", File: f, Old: "\tcase isDecimal(ch) || ch == '.' && isDecimal(rune(s.peek())):", New: "\tcase isDigit(ch) || ch == '.' && isDecimal(rune(s.peek())):", Expect: "progress/Scanner.Scan"},
 			{Name: "unit-after-whitespace", File: f, Old: "scanAgain:\n\tif s.unitVal == \"\" { // a pending unit ends right at the current offset\n\t\ts.skipWhitespace()\n\t}\n", New: "scanAgain:\n\ts.skipWhitespace()\n", Expect: "unit-position/Scanner.Scan"},
+			{Name: "rawstring-strips-cr-in-place", File: f, Old: "\t\tlit = stripCR(lit, false)\n", New: "\t\tlit = append(lit[:0], stripCR(lit, false)...)\n", Expect: "src-readonly/Scanner.scanRawString:append"},
 			{Name: "string-literal-drops-quote", File: f, Old: "\t// '\"' opening already consumed\n\toffs := s.offset - 1\n", New: "\t// '\"' opening already consumed\n\toffs := s.offset\n", Expect: "literal-slice/Scanner.scanString"},
 			{Name: "identifier-start-after-next", File: f, Old: "func (s *Scanner) scanIdentifier() string {\n\toffs := s.offset\n", New: "func (s *Scanner) scanIdentifier() string {\n\ts.next()\n\toffs := s.offset\n", Expect: "literal-slice/Scanner.scanIdentifier"},
 			{Name: "unit-not-cut-from-number", File: f, Old: "lit := string(s.src[offs : s.offset-len(s.unitVal)])", New: "lit := string(s.src[offs:s.offset])", Expect: "unit-tiling/Scanner.scanNumber"},
@@ -342,6 +343,94 @@ func runC15(c *core.Check) {
 	}
 	c.Analysed("rewind_sites", nRewind)
 	c.Floor("rewind-consistency", 2)
+
+	// ---------- (1c) the scanner never writes into the source it was given: token text is a view of s.src (or a copy
+	// made by stripCR); appending to, copying into, or index-assigning a slice taken from s.src (its capacity reaches the
+	// end of the source) overwrites the caller's buffer
+	{
+		fSrc := fieldVar(scannerT, "src")
+		isSrcSlice := func(e ast.Expr) bool {
+			sl, ok := ast.Unparen(e).(*ast.SliceExpr)
+			if !ok || sl.Slice3 {
+				return false
+			}
+			sel, ok := ast.Unparen(sl.X).(*ast.SelectorExpr)
+			if !ok {
+				return false
+			}
+			s2 := info.Selections[sel]
+			return s2 != nil && s2.Obj() == fSrc
+		}
+		nViews := 0
+		for _, fd := range core.AllFuncDecls(pk) {
+			if fd.Body == nil {
+				continue
+			}
+			views := map[types.Object]bool{}
+			// locals that hold a view of s.src (directly, or re-sliced from such a local)
+			for changed := true; changed; {
+				changed = false
+				ast.Inspect(fd.Body, func(n ast.Node) bool {
+					as, ok := n.(*ast.AssignStmt)
+					if !ok || len(as.Lhs) != len(as.Rhs) {
+						return true
+					}
+					for i, r := range as.Rhs {
+						o := identObj(info, as.Lhs[i])
+						if o == nil || views[o] {
+							continue
+						}
+						tainted := isSrcSlice(r)
+						if sl, ok := ast.Unparen(r).(*ast.SliceExpr); ok && !sl.Slice3 {
+							if x := identObj(info, sl.X); x != nil && views[x] {
+								tainted = true
+							}
+						}
+						if tainted {
+							views[o] = true
+							changed = true
+						}
+					}
+					return true
+				})
+			}
+			nViews += len(views)
+			isView := func(e ast.Expr) bool {
+				e = ast.Unparen(e)
+				if isSrcSlice(e) {
+					return true
+				}
+				if sl, ok := e.(*ast.SliceExpr); ok && !sl.Slice3 {
+					e = ast.Unparen(sl.X)
+				}
+				if sel, ok := e.(*ast.SelectorExpr); ok {
+					if s2 := info.Selections[sel]; s2 != nil && s2.Obj() == fSrc {
+						return true
+					}
+				}
+				o := identObj(info, e)
+				return o != nil && views[o]
+			}
+			ast.Inspect(fd.Body, func(n ast.Node) bool {
+				switch x := n.(type) {
+				case *ast.CallExpr:
+					if id, ok := x.Fun.(*ast.Ident); ok && len(x.Args) >= 2 {
+						if (id.Name == "append" || id.Name == "copy") && isView(x.Args[0]) {
+							c.Bad("src-readonly", core.FuncName(fd)+":"+id.Name, x.Pos(), id.Name+"() writes through a slice taken from s.src (its capacity reaches the end of the source, so nothing is reallocated): the caller's source buffer is modified while it is being scanned — token text no longer equals the source, a second scan of the same buffer sees other tokens, and a read-only source (a string) faults")
+						}
+					}
+				case *ast.AssignStmt:
+					for _, l := range x.Lhs {
+						if ix, ok := ast.Unparen(l).(*ast.IndexExpr); ok && isView(ix.X) {
+							c.Bad("src-readonly", core.FuncName(fd)+":index-store", x.Pos(), "an element of (a slice of) s.src is assigned: the scanner modifies the source it was given")
+						}
+					}
+				}
+				return true
+			})
+		}
+		c.Ok("src-readonly", "census", scan.Pos(), core.Sprintf("%d local views of s.src inspected; none is appended to, copied into or index-assigned", nViews))
+	}
 
 	// ---------- (2) literal slices
 	c.Floor("literal-slice", 6)
